@@ -42,27 +42,29 @@ Proof. exact live_holds. Qed.
 Print Assumptions c16_live.
 
 (* ideal encryption (dec k (enc c p) succeeds iff c = cert_of k): the holder of the matching keys recovers exactly
-   the subject and all attribute values that were issued, and the SP accepts *)
+   the subject and all attribute values that were issued, and the SP accepts; the key list is the one
+   SecurityContext.decrypt builds: per-request keys (outstanding_certs hit) followed by the configured keys *)
 Theorem c16_recover :
   forall (key : Type) (cert_of : key -> cert) (can_open : key -> cert -> bool),
   (forall k c, can_open k c = true <-> c = cert_of k) ->
-  forall x w ks wr wa,
+  forall x w hit req conf wr wa,
   guard x -> in_force x -> valid_advice x -> idp x = Wire w ->
-  (forall c, In c (certs_used w) -> exists k, In k ks /\ c = cert_of k) ->
+  (forall c, In c (certs_used w) -> exists k, In k (key_list hit req conf) /\ c = cert_of k) ->
   (wr = true -> sr x = true) -> (wa = true -> sa x = true) ->
-  exists l, sp_parse key can_open ks wr wa w = Some (subj x, l) /\ same_atoms l (attr_atoms x).
-Proof. exact recover_ideal. Qed.
+  exists l, sp_receive key can_open hit req conf wr wa w = Some (subj x, l) /\ same_atoms l (attr_atoms x).
+Proof. exact recover_ideal_keys. Qed.
 Print Assumptions c16_recover.
 
-(* only a holder of the matching key: any other key set obtains no identity from an encrypted assertion *)
+(* only a holder of the matching key: any other key list (per-request ++ configured) obtains no identity from an
+   encrypted assertion *)
 Theorem c16_wrongkey :
   forall (key : Type) (cert_of : key -> cert) (can_open : key -> cert -> bool),
   (forall k c, can_open k c = true <-> c = cert_of k) ->
-  forall x w ks wr wa,
+  forall x w hit req conf wr wa,
   guard x -> ea x = true -> avail (rcpt_main x) -> idp x = Wire w ->
-  (forall k c, In k ks -> In c (rcpt_main x) -> cert_of k <> c) ->
-  sp_parse key can_open ks wr wa w = None.
-Proof. exact wrongkey_ideal. Qed.
+  (forall k c, In k (key_list hit req conf) -> In c (rcpt_main x) -> cert_of k <> c) ->
+  sp_receive key can_open hit req conf wr wa w = None.
+Proof. exact wrongkey_ideal_keys. Qed.
 Print Assumptions c16_wrongkey.
 
 (* advice encryption alone: without a matching key no attribute of the advice is obtained *)
